@@ -5,7 +5,7 @@ from .. import spec, regexset
 from ..absint import Explorer, UNKNOWN
 from ..astutil import norm, const, NO, compare, tail, names
 from ..index import AnalysisError, walk_own, Regex
-from .common import (site, key, calls_to, method_calls, nodes_with, guard_check, stores_to_name, kills_of, regex_test)
+from .common import (site, key, calls_to, method_calls, nodes_with, guard_check, stores_to_name, kills_of, regex_test, rname)
 from .c01 import token_recog, forbidden_recog
 
 WSGI = "gunicorn.http.wsgi"
@@ -25,6 +25,28 @@ def run(ctx):
     r3(ctx)
     r4(ctx)
     r5(ctx)
+
+
+def headers_loop(ctx):
+    """(function, `for name, value in <headers>` node) of the Response method that validates and stores the application's
+    headers -- process_headers, or start_response when that helper is written (or was expanded) in place"""
+    repo = ctx.repo
+    found = []
+    for f in repo.cls(RESP).methods.values():
+        for c in method_calls(f, "append"):
+            if rname(f, c.func.value) == "self.headers":
+                lp = f.module.enclosing(c, ast.For)
+                while lp is not None and not (isinstance(lp.target, ast.Tuple) and len(lp.target.elts) == 2):
+                    lp = f.module.enclosing(lp, ast.For)
+                if lp is not None:
+                    found.append((f, lp))
+    if not found:
+        raise AnalysisError("C09: no `for name, value in headers: ... self.headers.append(..)` loop in class Response")
+    f, lp = found[0]
+    if any(ff is not f for ff, _ in found):
+        raise AnalysisError("C09: Response.headers is appended to in several methods: %s" % sorted(set(ff.short for ff, _ in found)))
+    ctx.fn(f)
+    return f, [n for n in f.cfg.nodes_of(lp) if n.kind == "for"][0]
 
 
 def emitted_head(repo, fields):
@@ -156,15 +178,14 @@ def r2(ctx):
     ctx.check("C09.R2", cs == spec.FIELD_VALUE_CHARS and hi is None, "HEADER_VALUE_RE", "gunicorn/http/wsgi.py: HEADER_VALUE_RE",
               "HEADER_VALUE_RE accepts %s; RFC 9110 5.5 field-content is %s (extra: %s)" % (regexset.show(cs), regexset.show(spec.FIELD_VALUE_CHARS), regexset.show(cs - spec.FIELD_VALUE_CHARS)),
               "== HTAB SP VCHAR obs-text")
-    f = ctx.fn(repo.func(RESP + ".process_headers"))
+    f, lnode = headers_loop(ctx)
     g = f.cfg
-    loop = [n for n in g.nodes if n.kind == "for"]
-    ctx.need(loop and isinstance(loop[0].ast.target, ast.Tuple) and len(loop[0].ast.target.elts) == 2, "C09.R2: `for name, value in headers` not found")
+    loop = [lnode]
     NAME, VALUE = [x.id for x in loop[0].ast.target.elts]
     # regex tests are dominated by the str type check of the same variable
     for t in g.tests():
         rt = regex_test(repo, f, t.ast)
-        if not rt:
+        if not rt or not any(a is lnode.ast for a in f.module.ancestors(t.ast)):
             continue
         var = tail(rt[3])
 
@@ -172,7 +193,7 @@ def r2(ctx):
             if isinstance(e, ast.Call) and isinstance(e.func, ast.Name) and e.func.id == "isinstance" and tail(e.args[0]) == var and norm(e.args[1]) == "str":
                 return -1
             return None
-        p, hits = guard_check(f, [t], isstr)
+        p, hits = guard_check(f, [t], isstr, kills=loop)
         ctx.check("C09.R2", p is None, key(f, "type-check-first|" + var), site(f, t), "`%s` is matched against a str pattern before its type was checked (bytes would raise TypeError -> 500 after partial processing)" % var,
                   "isinstance(%s, str) first" % var, path=p and g.fmt_path(p))
         ctx.check("C09.R2", rt[2] == "fullmatch", key(f, "fullmatch|" + var), site(f, t), "`%s`: header validators must use fullmatch" % norm(t.ast), "fullmatch")
@@ -185,6 +206,7 @@ def r2(ctx):
 
 def r3(ctx):
     repo = ctx.repo
+    hf, hloop = headers_loop(ctx)
     n = 0
     for f in repo.funcs():
         for c in walk_own(f.node):
@@ -193,15 +215,15 @@ def r3(ctx):
                 if f.cls is not None and f.cls.qualname != RESP and tail(c.func.value.value) == "self":
                     continue
                 n += 1
-                ctx.check("C09.R3", f.qualname == RESP + ".process_headers", key(f, "headers-writer"), site(f, c), "Response.headers is extended outside process_headers (validation bypassed)", "only process_headers appends")
+                ctx.check("C09.R3", f is hf and any(a is hloop.ast for a in f.module.ancestors(c)), key(f, "headers-writer"), site(f, c), "Response.headers is extended outside the validating header loop (validation bypassed)", "only the validating loop appends")
     ctx.floor("C09.R3", "Response.headers append sites", n, 2)
     f = ctx.fn(repo.func(RESP + ".start_response"))
     g = f.cfg
-    ph = [n2 for c in calls_to(repo, f, RESP + ".process_headers") for n2 in nodes_with(f, c)]
+    ph = [n2 for c in calls_to(repo, f, hf.qualname) for n2 in nodes_with(f, c)] if hf is not f else [hloop]
     ctx.check("C09.R3", bool(ph), key(f, "calls-process_headers"), site(f), "start_response does not validate the headers", "process_headers(headers)")
     bad = [c for c, q in repo.calls_in(f) if q in (RESP + ".send_headers", RESP + ".write", "gunicorn.util.write")]
     ctx.check("C09.R3", not bad, key(f, "no-send-in-start_response"), site(f), "start_response sends bytes: a later refusal could not be clean", "nothing is sent in start_response")
-    callers = [ff for ff in repo.funcs() for c, q in repo.calls_in(ff) if q == RESP + ".process_headers"]
+    callers = [ff for ff in repo.funcs() for c, q in repo.calls_in(ff) if q == hf.qualname and hf is not f]
     ctx.check("C09.R3", all(ff.qualname == RESP + ".start_response" for ff in callers), key(f, "process_headers-callers"), site(f), "process_headers has other callers than start_response", "single caller")
     # send_headers emits the default lines + one `name: value CRLF` per accepted header + the empty line (evaluated)
     f = ctx.fn(repo.func(RESP + ".send_headers"))
@@ -225,9 +247,8 @@ def r4(ctx):
     rets = [n for n in fh.cfg.stmts(ast.Return)]
     okk = len(rets) == 1 and (lambda c: c and c[1] is ast.In and tail(c[2]) == "hop_headers" and "lower" in norm(c[0]))(compare(rets[0].ast.value))
     ctx.check("C09.R4", okk, key(fh, "membership"), site(fh), "is_hoppish is not a case-insensitive membership test in hop_headers", "header.lower() in hop_headers")
-    f = ctx.fn(repo.func(RESP + ".process_headers"))
+    f, loop = headers_loop(ctx)
     g = f.cfg
-    loop = [n for n in g.nodes if n.kind == "for"][0]
     NAME, VALUE = [x.id for x in loop.ast.target.elts]
     apps = [n for c in method_calls(f, "append") if tail(c.func.value) == "headers" for n in nodes_with(f, c)]
 
@@ -266,10 +287,10 @@ def r5(ctx):
     EXC = f.params[3]
     # PEP 3333: a second call with exc_info (head not sent yet) REPLACES the stored headers: everything process_headers
     # accumulates must be reset on that path
-    ph = [n for c in calls_to(repo, f, RESP + ".process_headers") for n in nodes_with(f, c)]
-    fp = repo.func(RESP + ".process_headers")
+    fp, hloop = headers_loop(ctx)
+    ph = [n for c in calls_to(repo, f, fp.qualname) for n in nodes_with(f, c)] if fp is not f else [hloop]
     accumulated = set()
-    for x in walk_own(fp.node):
+    for x in (walk_own(fp.node) if fp is not f else ast.walk(hloop.ast)):
         if isinstance(x, ast.Call) and isinstance(x.func, ast.Attribute) and x.func.attr in ("append", "extend") and isinstance(x.func.value, ast.Attribute) and tail(x.func.value.value) == "self":
             accumulated.add(x.func.value.attr)
         if isinstance(x, ast.Assign):
